@@ -14,7 +14,7 @@ from vlib import harness
 ID = "C10"
 LEVEL = "exploration"
 ENGINE = "vkernel+sched"
-TECHNIQUE = "runtime monitor: history of served counter snapshots vs sequential wrap-accumulator reference model; linearizability check of two-thread schedules under a deterministic scheduler"
+TECHNIQUE = "runtime monitor: history of served counter snapshots vs sequential wrap-accumulator reference model; linearizability check of two-thread schedules under a deterministic scheduler and of short free-running multi-thread histories"
 RULE = ("one case = a history of calls (net_io_counters / disk_io_counters, nowrap True/False, pernic/perdisk, cache_clear) each "
         "served its own raw snapshot (1-5 devices; every counter steps up, wraps, wraps repeatedly, devices disappear/reappear, "
         "all devices disappear). all histories of length <=3 (quick) / <=4 (thorough) over one varied device x {absent,3 "
@@ -467,6 +467,96 @@ def run_sched_case(case, acc, seen):
              sample=dict(case, trace="".join(map(str, sch.trace))))
 
 
+# ---- part 3: free-running threads, many short histories --------------------------------------------------
+
+def run_threads_case(case, acc):
+    """2-3 real threads x 2-3 calls (1 us switch interval): every call is served its own raw snapshot (attributed by the
+    thread that opened the file), call/return stamped with one monotonic clock outside the call; the short history must be
+    linearizable against the sequential accumulator model (same checker as part 2, real time instead of scheduler steps)."""
+    import sys
+    import threading
+    import time
+    env = setup()
+    ps = env["ps"]
+    rng = harness.rng_for(case["seed"], "c10t", case["i"])
+    shape = rng.choice([(3, 2), (2, 3), (2, 2), (3, 2)])
+    progs = []
+    for t in range(shape[0]):
+        ops = [("call", True) for _ in range(shape[1])]
+        if t == shape[0] - 1 and rng.random() < 0.35:
+            ops[rng.randrange(len(ops))] = ("clear",)
+        progs.append(ops)
+    w = World()
+    # raw snapshots: up / wrap mixtures, one or two interfaces, an interface vanishing now and then
+    snaps = []
+    for _ in range(1 + shape[0] * shape[1]):
+        sn = {"eth0": mk_row(rng.randrange(1, 12), 0, 8, "net")}
+        if rng.random() < 0.75:
+            sn["lo"] = mk_row(rng.randrange(1, 12), 1, 8, "net")
+        snaps.append(sn)
+    w.queue["net"] = [dict(x) for x in snaps]
+    idents = {}
+    w.who = lambda: idents.get(threading.get_ident())
+    calls = []
+    errors = []
+    now = time.perf_counter_ns
+    barrier = threading.Barrier(shape[0])
+    old = sys.getswitchinterval()
+
+    def worker(i):
+        idents[threading.get_ident()] = i
+        try:
+            barrier.wait()
+            for op in progs[i]:
+                t0 = now()
+                n0 = len(w.opened)
+                if op[0] == "clear":
+                    ps.net_io_counters.cache_clear()
+                    calls.append(dict(t=i, kind="clear", step0=t0, step1=now()))
+                else:
+                    r = ps.net_io_counters(pernic=True, nowrap=True)
+                    t1 = now()
+                    mine = [o for o in w.opened[n0:] if o[0] == i]
+                    calls.append(dict(t=i, kind="call", step0=t0, step1=t1, result={k: tuple(v) for k, v in r.items()},
+                                      snap=mine[0][2] if mine else None))
+        except BaseException as e:  # noqa: BLE001
+            errors.append((i, e))
+
+    with w.vk:
+        w.clear_all()
+        ps.net_io_counters(pernic=True, nowrap=True)
+        seed_snap = w.opened[-1][2]
+        sys.setswitchinterval(1e-6)
+        try:
+            ths = [threading.Thread(target=worker, args=(i,), daemon=True) for i in range(shape[0])]
+            for t in ths:
+                t.start()
+            for t in ths:
+                t.join(60)
+            hung = any(t.is_alive() for t in ths)
+        finally:
+            sys.setswitchinterval(old)
+            w.clear_all()
+    viols = []
+    ctx = f"free-running threads seed={case['seed']} i={case['i']} progs={progs}"
+    if hung:
+        acc.inconclusive = ctx + ": a thread did not finish within 60 s"
+        return
+    for i, e in errors:
+        viols.append((f"thread_exception:{type(e).__name__}", f"{ctx} thread {i}: {e!r}"))
+    # the checker needs per-thread program order: calls of one thread were appended in order
+    calls.sort(key=lambda c: (c["t"], c["step0"]))
+    overlapped = any(a["t"] != b["t"] and a["step0"] <= b["step1"] and b["step0"] <= a["step1"] for a in calls for b in calls)
+    if not viols:
+        acc.count("linearizability_checks")
+        acc.count("free_running_histories_checked")
+        if overlapped:
+            acc.count("free_running_histories_with_overlapping_calls")
+        if not linearizable(calls, seed_snap):
+            viols.append(("not_linearizable", f"{ctx} calls={calls}"))
+    acc.case(dict(kind="threads", **case), overlapped, viols)
+
+
 def plan(tier, seed):
     shards = []
     length = 3 if tier == "quick" else 4
@@ -484,6 +574,8 @@ def plan(tier, seed):
         for part in range(sp if bound == 2 else 1):
             shards.append(dict(kind="sched_exh", scn=scn, bound=bound, part=part, parts=sp if bound == 2 else 1))
         shards.append(dict(kind="sched_rand", scn=scn, seed=seed, count=1500 if tier == "quick" else 60000))
+    for part in range(4 if tier == "quick" else 16):
+        shards.append(dict(kind="threads", seed=seed, part=part, count=400 if tier == "quick" else 8000))
     return shards
 
 
@@ -500,6 +592,9 @@ def run_shard(shard):
     elif k == "rand":
         for i in range(shard["start"], shard["start"] + shard["count"]):
             run_history(gen_random(harness.rng_for(shard["seed"], "c10", i)), acc)
+    elif k == "threads":
+        for i in range(shard["count"]):
+            run_threads_case(dict(seed=shard["seed"], i=shard["part"] * 100000 + i), acc)
     elif k == "sched_exh":
         sch, _, _ = run_schedule(shard["scn"], (), 0)
         total_steps = sch.step
@@ -522,6 +617,8 @@ def run_shard(shard):
         for case in shard["cases"]:
             if "hist" in case:
                 run_history(case["hist"], acc)
+            elif case.get("kind") == "threads":
+                run_threads_case({k_: v for k_, v in case.items() if k_ != "kind"}, acc)
             else:
                 run_sched_case(case, acc, seen)
     return acc.result()
